@@ -300,6 +300,22 @@ func c16Child(c *Ctx) error {
 				0, sr.Fork(), tw, 5*time.Second)
 			return res, grand
 		}
+		// probe: a clean session with the complemented evaluator input (see below)
+		yAlt := make([]bool, n1)
+		for k := range y {
+			yAlt[k] = !y[k]
+		}
+		wantAlt := JoinBig(circ, TruthEval(circ, append(append([]bool(nil), x...), yAlt...)))
+		probes, maxProbes := 0, c.N(25, 400)
+		probe := func() string {
+			sr := NewRNG(sessSeed ^ 0x5bd1e995)
+			res := runSession(circ, bitsToBig(x), bitsToBig(yAlt), &blockLog{r: sr.Fork(), skipKey: true}, kind.mk(sr.Fork()), kind.mk(sr.Fork()),
+				0, sr.Fork(), nil, 5*time.Second)
+			if res.gErr == nil && res.gRes != nil && bigsString(res.gRes) != bigsString(wantAlt) {
+				return bigsString(res.gRes)
+			}
+			return ""
+		}
 		base, _ := run(nil)
 		if base.gErr != nil || base.eErr != nil || base.stalled || bigsString(base.gRes) != bigsString(want) {
 			fmt.Fprintf(w, "BASEFAIL %s\n", circuitText(circ))
@@ -411,6 +427,20 @@ func c16Child(c *Ctx) error {
 				w.Flush()
 			}
 			res, grand := run(&f)
+			if (res.eErr != nil || res.stalled) && probes < maxProbes && fi%2 == 0 {
+				// the session before this one was aborted on the evaluator's side: a CLEAN session
+				// on the same *Circuit value with another evaluator input must be unaffected by it
+				probes++
+				if bad := probe(); bad != "" {
+					rec2 := c16Rec{Fi: fi, Dir: f.dir, Kind: "clean-session-after-aborted-one", Off: f.off, Circuit: circuitText(circ), Outcome: "result"}
+					rec2.Wrong = &c16Replay{Seed: c.Seed, Circuit: circuitText(circ), OT: kind.name, X: bitsString(x), Y: bitsString(yAlt),
+						Dir: f.dir, Offset: f.off, Kind: "clean session (evaluator input " + bitsString(yAlt) + ") on the same *Circuit right after a session with evaluator input " + bitsString(y) + " that was aborted by fault " + f.kind,
+						Mask: int(f.mask), Got: bad, Want: bigsString(wantAlt), CircSeed: cseed}
+					b, _ := json.Marshal(rec2)
+					fmt.Fprintf(w, "END %s\n", b)
+					w.Flush()
+				}
+			}
 			outcome := "error"
 			switch {
 			case res.gErr == nil && res.gRes != nil:
